@@ -277,7 +277,7 @@ Definition getitem_int (f : grofile) (s : sysgro) (i : Z) : M residue :=
       | Some e => access f e
       end).
 
-(* range(*slice(a, b, c).indices(len)) -- the positions islice_extended(gen, a, b, c) yields,
+(* range over slice(a, b, c).indices(len) -- the positions islice_extended(gen, a, b, c) yields,
    in the order it yields them (more_itertools documents list-slice semantics; compared with
    list slicing exhaustively for len <= 7 when the model was written, and by K on every run) *)
 Definition py_slice_indices (len : nat) (a b c : option Z) : res (list nat) :=
